@@ -247,6 +247,25 @@ def convolve_with_cases(ctx: Ctx, geom, jnp, n):
             ctx.violation("oracle", "GeometricImage.convolve_with: " + ", ".join(bad), dict(desc, image=jarr(c["img"]), filter=jarr(c["flt"])))
 
 
+def replay(ctx: Ctx, rep: dict):
+    """re-run the single stored case (geom.convolve / convolve_contract / bilinearity on that input)"""
+    import jax.numpy as jnp
+    import ginjax.geometric as geom
+
+    case = rep.get("case", {})
+    if "image" not in case or "filter" not in case:
+        return run(ctx)
+    img, flt = unarr(case["image"]), unarr(case["filter"])
+    d = case["D"]
+    pad = case.get("padding")
+    kind = ("none" if pad is None else pad if isinstance(pad, str) else "int" if isinstance(pad, int) else "explicit")
+    c = dict(d=d, kI=img.ndim - 2 - d, kF=flt.ndim - 2 - d, N=list(img.shape[2:2 + d]), M=list(flt.shape[2:2 + d]),
+             torus=case["is_torus"], stride=case["stride"], rd=case["rhs_dilation"], ld=case.get("lhs_dilation"),
+             padding=pad, kind=kind, img=img, flt=flt)
+    ctx.rule = "replay of one stored case"
+    one_case(ctx, geom, jnp, c, 0)
+
+
 def run(ctx: Ctx):
     import jax.numpy as jnp
     import ginjax.geometric as geom
